@@ -121,25 +121,45 @@ PROPS["C08"] = {
   "anchors": ["leveldb/leveldb.go", "leveldb/leveldbSerial.go", "leveldb/batch.go", "leveldb/serialActions.go", "memorydb/memorydb.go", "sharded/shardedDB.go"],
   "exhaustive_claim": True,
   "rule": "exhaustive (2 keys x values {01, empty}; kinds DB and SerialDB): all sequences of 5 writes (Put k v / Remove k; first write on key a, the two keys being interchangeable) with MaxBatchSize 2, all sequences of 3 ops incl. Get with MaxBatchSize 1 and 3; memorydb: all sequences of 5 ops (thorough: 6 writes / 4 ops / 6 ops); every prefix observed. "
-          "random: 3-5 keys from an 11-key pool (empty key 1/12), values {nil, empty, 1 byte, longer}, MaxBatchSize in {1,2,3,5}, 10-50 ops, all six persister kinds, directed patterns (overwrite after flush, remove-then-put / put-then-remove in one batch, nil/empty over a flushed value, Close after every shape of last partial batch), Close/Reopen cycles incl. ops on the closed object; 1 history in 200 (thorough 1 in 40) runs with BatchDelaySeconds=1 and real sleeps for Tick. "
+          "random: 3-5 keys from an 11-key pool (empty key 1/12), values {nil, empty, 1 byte, longer}, MaxBatchSize in {1,2,3,5}, 10-50 ops, all six persister kinds, directed patterns (overwrite after flush, remove-then-put / put-then-remove in one batch, nil/empty over a flushed value, Close after every shape of last partial batch), Close/Reopen cycles incl. ops on the closed object, RangeKeys with an early-stopping handler (op 9), Destroy / Close;DestroyClosed cycles with the constructor called again (ops 10, 11; C09's subject, here only labels 1-5 of those steps are compared); 1 history in 200 (thorough 1 in 40) runs with BatchDelaySeconds=1 and real sleeps for Tick. "
           "Observables after every op: result class, Get bytes, Get/Has of every key of the alphabet. Non-trivial = hits at least one situation (flush-by-size, read-from-batch, read-from-disk, overwrite-after-flush, remove-then-put-in-batch, nil-value, empty-value, tick-flush, ...).",
   "explanation": "Theorems in Props/C08.v quantify over every op list, every MaxBatchSize (any integer), every key/value incl. nil and empty, for DB, SerialDB, memorydb and the sharded persister; the models are tied to /repo by differential runs on real LevelDB directories.",
   "assumptions": PERSIST_ASSUME,
 }
 PROPS["C09"] = {
-  # only the answers of Close (6), Reopen (7) and RangeKeys (8) steps are compared (incl. the Get/Has probes of every key
-  # printed with them): reads between flushes belong to C08
-  "runs": [{"component": "persist", "labels": None, "diff_ops": {6, 7, 8}, "n_quick": 1500, "n_thorough": 6000}],
-  "anchors": ["leveldb/leveldb.go", "leveldb/leveldbSerial.go", "leveldb/common.go", "sharded/shardedDB.go"],
+  # only the answers of Close (6), Reopen (7), RangeKeys (8), early-stopping RangeKeys (9), Destroy (10), DestroyClosed (11) and of the
+  # inserted judgement of the visits of an op 9 (12) are compared (incl. the Get/Has probes of every key printed with them):
+  # reads between flushes belong to C08
+  "runs": [{"component": "persist", "labels": None, "diff_ops": {6, 7, 8, 9, 10, 11, 12}, "n_quick": 1500, "n_thorough": 6000}],
+  "anchors": ["leveldb/leveldb.go", "leveldb/leveldbSerial.go", "leveldb/common.go", "sharded/shardedDB.go", "memorydb/memorydb.go"],
   "exhaustive_claim": True,
-  "rule": "exhaustive: all sequences over {Put k v, Remove k (2 keys x 2 values), Close;Reopen;RangeKeys} of length 4 (MaxBatchSize 2, first op on key a or a cycle) and 3 (MaxBatchSize 3) for DB and SerialDB, length 3 for the sharded persister over each (thorough: 5 / 4); random as C08 with kinds DB, SerialDB, sharded over them and twice the cycle weight. After Reopen the monitor compares Get/Has of every key and RangeKeys with the harness-side map of acknowledged writes; RangeKeys on an open persister is compared with the harness-side flushed map.",
-  "explanation": "Props/C09.v: Close+reopen presents exactly abs of the state before Close (Get, Has, RangeKeys), for histories with any number of cycles at arbitrary points; RangeKeys presents the flushed map without duplicates.",
-  "assumptions": PERSIST_ASSUME + ["C09 is stated for persisters with a path (memorydb excluded)",
+  "rule": "exhaustive: all sequences over {Put k v, Remove k (2 keys x 2 values), Close;Reopen;RangeKeys} of length 4 (MaxBatchSize 2, first op on key a or a cycle) and 3 (MaxBatchSize 3) for DB and SerialDB, length 3 for the sharded persister over each (thorough: 5 / 4); random as C08 with kinds DB, SerialDB, sharded over them and twice the cycle weight. After Reopen the monitor compares Get/Has of every key and RangeKeys with the harness-side map of acknowledged writes; RangeKeys on an open persister is compared with the harness-side flushed map. "
+          "Early stop and destroy: exhaustive, all sequences of length 3 (thorough 4) over {Put a, Put b (2 values), Remove a, RangeKeys stopping after 1 / 2 visits, Destroy;Reopen;RangeKeys, "
+          "Close;DestroyClosed;Get;Reopen;RangeKeys-stop-1} for DB and SerialDB (MaxBatchSize 2) and, with MaxBatchSize 1, for the sharded persister over DB / SerialDB / memorydb and for memorydb; "
+          "random: op 9 = RangeKeys with a handler answering `calls so far < n`, n in {0,1,2,3,4,6} (5% of the ops, and after reopen), destroy cycles (7%: Destroy on the open persister or Close;DestroyClosed, "
+          "one time in three followed by 1-4 operations on the destroyed object incl. Destroy / DestroyClosed / Close again, then the constructor on the same path and a RangeKeys), 8% of the histories on memorydb / sharded-over-memorydb. "
+          "Compared on op 9: the number of handler calls (DB, SerialDB, memorydb) and the visited pairs in call order (DB, SerialDB: ascending keys); the order of a Go map and of the shards never reaches the diff: "
+          "after every op 9 the driver inserts op 12 carrying the pairs its handler received, and the model answers whether some order of the shards / of the map explains them (p_accept_stop, proved sound: C09_range_stop_checker_sound). "
+          "Monitors (from the text, not the model): every visited pair is a flushed pair with its flushed value, no key twice, an unsharded persister makes exactly min(max(n,1), flushed) calls, LevelDB visits in ascending key order, "
+          "after a `false` the same persister is not iterated any further (sharded: the next call, if any, is in a shard not visited before; every shard holding flushed keys is visited), a closed / destroyed LevelDB persister visits nothing; "
+          "Destroy / DestroyClosed return nil and the directories (one per shard) are gone; after Destroy or Close;DestroyClosed and the constructor on the same path every key of the alphabet is absent (Get, Has) and RangeKeys visits nothing; "
+          "memorydb is empty right after Destroy. Situations recorded: range-early-stop, range-stop-not-reached, range-stop-continued-in-next-shard, range-stop-on-closed, destroy-open, destroy-with-pending-batch, destroy-on-closed, destroy-closed, reopen-after-destroy.",
+  "explanation": "Props/C09.v: Close+reopen presents exactly abs of the state before Close (Get, Has, RangeKeys), for histories with any number of cycles at arbitrary points; RangeKeys presents the flushed map without duplicates. "
+                 "RangeKeys with a stopping handler: flushed pairs only, no key twice, exactly min(max(n,1), flushed) calls for DB / SerialDB / memorydb (for LevelDB the first ones in strictly ascending key order); for the sharded persister, "
+                 "under EVERY order of the shards, each shard delivers its own prefix and the handler is called again for every further shard (between min(max(n,1), flushed) and max(n,1)+shards-1 calls; the reading 'false stops the iteration' is refuted by witness). "
+                 "Destroy / Close;DestroyClosed followed by the constructor give, for every state, the persister the constructor gives on an empty path (after any history from a constructor state: exactly the constructor's state); "
+                 "histories with such cycles follow the map that a destroy cycle empties; the exact answers of a destroyed DB / SerialDB / memorydb object; whatever is called on the destroyed object, the constructor afterwards gives the empty persister.",
+  "assumptions": PERSIST_ASSUME + ["C09's Close/reopen half is stated for persisters with a path (memorydb excluded); the early-stop and destroy theorems cover memorydb too",
+                                   "os.RemoveAll / db.Close() inside Destroy / DestroyClosed do not fail (no failing file system in the model)",
+                                   "DestroyClosed is only exercised after Close or Destroy (on an open LevelDB persister it would remove the directory under a running goleveldb: outside the model, the wire component refuses the call)",
+                                   "goleveldb's iterator delivers ascending keys (bytes.Compare): modelled by sorting the association list; the order of a Go map and the order in which the sharded persister walks its shards are left open (theorems quantify over the shard order, the differential check uses the acceptor)",
+                                   "FINDING (kept in the model, not a monitor failure): shardedPersister.RangeKeys hands the handler to every shard, so a handler that answered false is called again once per further non-empty shard (C09_range_stop_sharded_stops_refuted)",
+                                   "a destroyed leveldb.DB acknowledges (nil) Put/Remove while the batch is not full, like a closed one; the write is dropped (C09_destroyed_db); a destroyed memorydb is a working empty persister (C09_destroyed_memdb_is_a_new_one)",
                                    "DB.Put/Remove on a CLOSED leveldb.DB return nil while the batch is not full and the write is dropped (outside the property: only writes acknowledged before Close count); modelled faithfully, witness theorem in Props/C09.v"],
 }
 PROPS["C19"]["runs"].append({"component": "persist", "labels": None, "n_quick": 600, "n_thorough": 3000})
 PROPS["C19"]["coq_props"] = ["C19", "C19b"]
-PROPS["C19"]["rule"] += " persist: sharded persister (2-8 shards, real shard id provider) over DB / SerialDB / memorydb; exhaustive: all 5-op sequences over 2 keys in different shards (memorydb shards), 4-op with 3 shards, 3 writes over LevelDB shards"
+PROPS["C19"]["rule"] += " persist: sharded persister (2-8 shards, real shard id provider) over DB / SerialDB / memorydb; exhaustive: all 5-op sequences over 2 keys in different shards (memorydb shards), 4-op with 3 shards, 3 writes over LevelDB shards; the random histories also carry RangeKeys with an early-stopping handler (op 9; what the handler received is judged by the model under every order of the shards, op 12) and Destroy / Close;DestroyClosed cycles (ops 10, 11), see C09"
 
 PROPS["C20"] = {
     "runs": [{"component": "fifo", "labels": None, "n_quick": 2000, "n_thorough": 20000}],
